@@ -24,7 +24,7 @@ def nd_codepoints():
 
 @lru_cache(maxsize=None)
 def upper_into_ascii():
-    """Non-ASCII code points whose upper() contains an ASCII alphanumeric (ß, ı, ſ, ﬁ, Kelvin-sign lower ...)."""
+    """Non-ASCII code points whose upper() contains an ASCII alphanumeric (\u00df, \u0131, \u017f, \ufb01, Kelvin-sign lower ...)."""
     out = []
     for c in range(0x80, 0x20000):
         ch = chr(c)
@@ -40,14 +40,14 @@ def case_changing():
     return tuple(chr(c) for c in range(0x80, 0x20000) if chr(c).upper() != chr(c))
 
 
-CONFUSABLES = list("АВЕКМНОРСТХаеорсух"            # Cyrillic
-                   "ΑΒΕΖΗΙΚΜΝΟΡΤΥΧ"                 # Greek
-                   "ＡＺａｚ０９"                      # fullwidth
-                   "KÅΩ"              # Kelvin, Angstrom, Ohm signs
-                   "²³¹⁰⁴₀₉①⑨ⅠⅤⅩⅰ½"               # superscripts, circled, roman numerals, fraction
-                   "ÀÉÑÖÜßçıİſﬁﬀ"
-                   "𝟎𝟗𝟘𝟡𝟬𝟵")                       # mathematical digits (Nd)
-ODDITIES = ["\x00", "\x7f", "\ud800", "\U0010ffff", "́", "‍", "�"]
+CONFUSABLES = list("\u0410\u0412\u0415\u041a\u041c\u041d\u041e\u0420\u0421\u0422\u0425\u0430\u0435\u043e\u0440\u0441\u0443\u0445"            # Cyrillic
+                   "\u0391\u0392\u0395\u0396\u0397\u0399\u039a\u039c\u039d\u039f\u03a1\u03a4\u03a5\u03a7"                 # Greek
+                   "\uff21\uff3a\uff41\uff5a\uff10\uff19"                      # fullwidth
+                   "\u212a\u212b\u2126"              # Kelvin, Angstrom, Ohm signs
+                   "\u00b2\u00b3\u00b9\u2070\u2074\u2080\u2089\u2460\u2468\u2160\u2164\u2169\u2170\u00bd"               # superscripts, circled, roman numerals, fraction
+                   "\u00c0\u00c9\u00d1\u00d6\u00dc\u00df\u00e7\u0131\u0130\u017f\ufb01\ufb00"
+                   "\U0001d7ce\U0001d7d7\U0001d7d8\U0001d7e1\U0001d7ec\U0001d7f5")                       # mathematical digits (Nd)
+ODDITIES = ["\x00", "\x7f", "\ud800", "\U0010ffff", "\u0301", "\u200d", "\ufffd"]
 
 
 @lru_cache(maxsize=None)
